@@ -121,6 +121,11 @@ func checkFoldIdentity(c *Ctx, p *packages.Package) {
 // checkFollowpos: R10.2
 func checkFollowpos(c *Ctx, p *packages.Package) {
 	info := p.TypesInfo
+	an, okAN := findAttrNames(c, p)
+	if !okAN {
+		c.Lost("R10.2", "the three attribute methods of the node interface")
+		return
+	}
 	// the method with a type switch over node types that appends to a follows map
 	var fd *ast.FuncDecl
 	AllFuncDecls(p, func(f *ast.FuncDecl) {
@@ -133,7 +138,7 @@ func checkFollowpos(c *Ctx, p *packages.Package) {
 			case *ast.TypeSwitchStmt:
 				hasSwitch = true
 			case *ast.CallExpr:
-				if sel, ok := s.Fun.(*ast.SelectorExpr); ok && (sel.Sel.Name == "lastPos" || sel.Sel.Name == "firstPos") {
+				if sel, ok := s.Fun.(*ast.SelectorExpr); ok && (sel.Sel.Name == an.last || sel.Sel.Name == an.first) {
 					hasFollow = true
 				}
 			}
@@ -177,12 +182,12 @@ func checkFollowpos(c *Ctx, p *packages.Package) {
 						return true
 					}
 					switch sel.Sel.Name {
-					case "nullable":
+					case an.nullable:
 						consultsNullable = true
-					case "lastPos":
+					case an.last:
 						usesLast = true
 						offsets = append(offsets, types.ExprString(sel.X))
-					case "firstPos":
+					case an.first:
 						usesFirst = true
 						offsets = append(offsets, types.ExprString(sel.X))
 					}
@@ -213,10 +218,10 @@ func checkFollowpos(c *Ctx, p *packages.Package) {
 					continue
 				}
 				if call, ok := ast.Unparen(rs.X).(*ast.CallExpr); ok {
-					if sel, ok := call.Fun.(*ast.SelectorExpr); ok && sel.Sel.Name == "lastPos" {
+					if sel, ok := call.Fun.(*ast.SelectorExpr); ok && sel.Sel.Name == an.last {
 						ast.Inspect(rs.Body, func(n ast.Node) bool {
 							if c2, ok := n.(*ast.CallExpr); ok {
-								if s2, ok := c2.Fun.(*ast.SelectorExpr); ok && s2.Sel.Name == "firstPos" && types.ExprString(s2.X) == types.ExprString(sel.X) {
+								if s2, ok := c2.Fun.(*ast.SelectorExpr); ok && s2.Sel.Name == an.first && types.ExprString(s2.X) == types.ExprString(sel.X) {
 									okStar = true
 								}
 							}
@@ -233,6 +238,12 @@ func checkFollowpos(c *Ctx, p *packages.Package) {
 // checkLeafTable: R10.3
 func checkLeafTable(c *Ctx, p *packages.Package) {
 	info := p.TypesInfo
+	an, okAN := findAttrNames(c, p)
+	if !okAN {
+		c.Lost("R10.3", "the three attribute methods of the node interface")
+		return
+	}
+	canon := map[string]string{an.nullable: "nullable", an.first: "firstPos", an.last: "lastPos"}
 	constRet := func(recv, name string) (string, *ast.FuncDecl) {
 		fd := FuncDecl(p, recv, name)
 		if fd == nil || fd.Body == nil || len(fd.Body.List) != 1 {
@@ -258,6 +269,9 @@ func checkLeafTable(c *Ctx, p *packages.Package) {
 		}
 		if call, ok := e.(*ast.CallExpr); ok {
 			if sel, ok := call.Fun.(*ast.SelectorExpr); ok {
+				if cn, ok := canon[sel.Sel.Name]; ok {
+					return "operand." + cn, fd
+				}
 				return "operand." + sel.Sel.Name, fd
 			}
 		}
@@ -268,8 +282,9 @@ func checkLeafTable(c *Ctx, p *packages.Package) {
 		{"Empty", "nullable", "true"}, {"Empty", "firstPos", "{}"}, {"Empty", "lastPos", "{}"},
 		{"Char", "nullable", "false"}, {"Char", "firstPos", "{pos}"}, {"Char", "lastPos", "{pos}"},
 	}
+	real := map[string]string{"nullable": an.nullable, "firstPos": an.first, "lastPos": an.last}
 	for _, t := range table {
-		got, fd := constRet(t.recv, t.name)
+		got, fd := constRet(t.recv, real[t.name])
 		pos := token.NoPos
 		if fd != nil {
 			pos = fd.Pos()
@@ -278,7 +293,7 @@ func checkLeafTable(c *Ctx, p *packages.Package) {
 		c.Check("R10.3", fmt.Sprintf("%s.%s is %s", t.recv, t.name, t.want), pos, got == t.want, fmt.Sprintf("%s.%s returns %s; the textbook attribute is %s", t.recv, t.name, got, t.want))
 	}
 	// Concat.compute: firstPos scans left to right, lastPos right to left, both stop at the first non-nullable operand
-	if fd := FuncDecl(p, "Concat", "compute"); fd != nil {
+	if fd := memoHelperOf(p, "Concat"); fd != nil {
 		c.Analysed(funcKey(p, fd))
 		firstOK, lastOK := false, false
 		ast.Inspect(fd.Body, func(n ast.Node) bool {
@@ -304,22 +319,21 @@ func checkLeafTable(c *Ctx, p *packages.Package) {
 						if call, ok := ast.Unparen(s.Rhs[0]).(*ast.CallExpr); ok && len(call.Args) == 2 {
 							if id, ok := call.Fun.(*ast.Ident); ok && id.Name == "append" {
 								a0, a1 := types.ExprString(call.Args[0]), types.ExprString(call.Args[1])
-								if strings.HasSuffix(lhs, "firstPos") && a0 == lhs && strings.Contains(a1, "firstPos()") {
+								// the accumulator is told apart by what is appended to it: the operand's firstpos or its lastpos
+								if a0 == lhs && strings.Contains(a1, "."+an.first+"()") {
 									appendsFirst = true
 								}
-								if strings.HasSuffix(lhs, "lastPos") {
-									if a0 == lhs && strings.Contains(a1, "lastPos()") {
-										appendsLast = true
-									}
-									if a1 == lhs && strings.Contains(a0, "lastPos()") {
-										prependsLast = true
-									}
+								if a0 == lhs && strings.Contains(a1, "."+an.last+"()") {
+									appendsLast = true
+								}
+								if a1 == lhs && strings.Contains(a0, "."+an.last+"()") {
+									prependsLast = true
 								}
 							}
 						}
 					}
 				case *ast.IfStmt:
-					if u, ok := ast.Unparen(s.Cond).(*ast.UnaryExpr); ok && u.Op == token.NOT && strings.Contains(types.ExprString(u.X), "nullable()") {
+					if u, ok := ast.Unparen(s.Cond).(*ast.UnaryExpr); ok && u.Op == token.NOT && strings.Contains(types.ExprString(u.X), "."+an.nullable+"()") {
 						for _, st := range s.Body.List {
 							if br, ok := st.(*ast.BranchStmt); ok && br.Tok == token.BREAK {
 								breaksOnNonNullable = true
@@ -340,7 +354,7 @@ func checkLeafTable(c *Ctx, p *packages.Package) {
 		c.Check("R10.3", "Concat.firstPos: union over the operands from the left up to the first non-nullable one", fd.Pos(), firstOK, "no left-to-right scan that stops after the first non-nullable operand")
 		c.Check("R10.3", "Concat.lastPos: union over the operands from the right up to the first non-nullable one", fd.Pos(), lastOK, "no right-to-left scan that stops after the first non-nullable operand")
 	} else {
-		c.Lost("R10.3", "Concat.compute")
+		c.Lost("R10.3", "the memoising helper of Concat")
 	}
 }
 
@@ -442,6 +456,11 @@ func checkEndMarker10(c *Ctx, p *packages.Package) {
 // is made by an attribute implementation or by a function that runs after the indexing step of Parse.
 func checkAttributePhase(c *Ctx, p *packages.Package) {
 	info := p.TypesInfo
+	anPhase, okAN := findAttrNames(c, p)
+	if !okAN {
+		c.Lost("R10.6", "the three attribute methods of the node interface")
+		return
+	}
 	// 1. memoising methods: methods that assign a field of their receiver (directly or via a same-receiver helper)
 	writes := map[*types.Func]bool{}
 	calls := map[*types.Func][]*types.Func{}
@@ -483,7 +502,7 @@ func checkAttributePhase(c *Ctx, p *packages.Package) {
 		if tn, ok := p.Types.Scope().Lookup(n).(*types.TypeName); ok {
 			if it, ok := tn.Type().Underlying().(*types.Interface); ok && it.NumMethods() >= 3 {
 				for i := 0; i < it.NumMethods(); i++ {
-					if it.Method(i).Name() == "nullable" || it.Method(i).Name() == "firstPos" {
+					if it.Method(i).Name() == anPhase.nullable || it.Method(i).Name() == anPhase.first {
 						nodeIface = it
 					}
 				}
@@ -635,4 +654,127 @@ func checkAttributePhase(c *Ctx, p *packages.Package) {
 			return true
 		})
 	})
+}
+
+// attrNames: the names the node interface gives to the three attributes, found by role, not by spelling: nullable is the
+// interface's bool method; firstpos is the position-set method that the DFA construction calls on the root to form the start
+// state, lastpos is the other one; compute is the memoising helper of a node type (a method without results that writes
+// its receiver).
+type attrNames struct{ nullable, first, last string }
+
+func findAttrNames(c *Ctx, p *packages.Package) (attrNames, bool) {
+	var an attrNames
+	info := p.TypesInfo
+	var node *types.Interface
+	for _, n := range p.Types.Scope().Names() {
+		tn, ok := p.Types.Scope().Lookup(n).(*types.TypeName)
+		if !ok {
+			continue
+		}
+		it, ok := tn.Type().Underlying().(*types.Interface)
+		if !ok {
+			continue
+		}
+		nBool, nSet := 0, 0
+		var setT types.Type
+		for i := 0; i < it.NumMethods(); i++ {
+			m := it.Method(i)
+			sig := m.Type().(*types.Signature)
+			if m.Exported() || sig.Params().Len() != 0 || sig.Results().Len() != 1 {
+				continue
+			}
+			rt := sig.Results().At(0).Type()
+			if b, ok := rt.Underlying().(*types.Basic); ok && b.Kind() == types.Bool {
+				nBool++
+				an.nullable = m.Name()
+			} else if _, ok := rt.Underlying().(*types.Slice); ok {
+				if setT == nil || types.Identical(setT, rt) {
+					setT = rt
+					nSet++
+				}
+			}
+		}
+		if nBool == 1 && nSet == 2 {
+			node = it
+		}
+	}
+	if node == nil {
+		return an, false
+	}
+	var sets []string
+	for i := 0; i < node.NumMethods(); i++ {
+		m := node.Method(i)
+		sig := m.Type().(*types.Signature)
+		if !m.Exported() && sig.Params().Len() == 0 && sig.Results().Len() == 1 {
+			if _, ok := sig.Results().At(0).Type().Underlying().(*types.Slice); ok {
+				sets = append(sets, m.Name())
+			}
+		}
+	}
+	// the one called on a field of the receiver (the root) in a function that returns a pointer (the DFA builder)
+	AllFuncDecls(p, func(fd *ast.FuncDecl) {
+		if fd.Body == nil || fd.Recv == nil || fd.Type.Results == nil || len(fd.Type.Results.List) != 1 {
+			return
+		}
+		if _, isPtr := info.TypeOf(fd.Type.Results.List[0].Type).(*types.Pointer); !isPtr {
+			return
+		}
+		if !fd.Name.IsExported() {
+			return
+		}
+		ast.Inspect(fd.Body, func(n ast.Node) bool {
+			call, ok := n.(*ast.CallExpr)
+			if !ok {
+				return true
+			}
+			sel, ok := call.Fun.(*ast.SelectorExpr)
+			if !ok {
+				return true
+			}
+			for _, s := range sets {
+				if sel.Sel.Name == s {
+					if inner, ok := ast.Unparen(sel.X).(*ast.SelectorExpr); ok {
+						if _, isIdent := ast.Unparen(inner.X).(*ast.Ident); isIdent && an.first == "" {
+							an.first = s
+						}
+					}
+				}
+			}
+			return true
+		})
+	})
+	for _, s := range sets {
+		if s != an.first {
+			an.last = s
+		}
+	}
+	return an, an.nullable != "" && an.first != "" && an.last != "" && len(sets) == 2
+}
+
+// memoHelperOf: the method of node type recv that has no results and writes a field of its receiver (the memoising helper).
+func memoHelperOf(p *packages.Package, recv string) *ast.FuncDecl {
+	info := p.TypesInfo
+	var out *ast.FuncDecl
+	AllFuncDecls(p, func(fd *ast.FuncDecl) {
+		if fd.Recv == nil || fd.Body == nil || recvName(fd.Recv.List[0].Type) != recv || (fd.Type.Results != nil && len(fd.Type.Results.List) > 0) {
+			return
+		}
+		if len(fd.Recv.List[0].Names) != 1 {
+			return
+		}
+		r := info.Defs[fd.Recv.List[0].Names[0]]
+		ast.Inspect(fd.Body, func(n ast.Node) bool {
+			if as, ok := n.(*ast.AssignStmt); ok {
+				for _, l := range as.Lhs {
+					if sel, ok := l.(*ast.SelectorExpr); ok {
+						if id, ok := ast.Unparen(sel.X).(*ast.Ident); ok && info.Uses[id] == r {
+							out = fd
+						}
+					}
+				}
+			}
+			return true
+		})
+	})
+	return out
 }
